@@ -447,10 +447,19 @@ func callerCancelsFromHook(at int) *sched.Scenario {
 // of that sync (the entries sync produces no notification and must not take
 // part in the count).
 func adChainAndEntriesSync() *sched.Scenario {
-	name := "N9-ad-chain-sync-and-entries-sync-of-one-publisher"
+	return adChainAndEntriesSyncOf("N9-ad-chain-sync-and-entries-sync-of-one-publisher")
+}
+
+// N10: the same on a subscriber that syncs in segments of one advertisement
+// (SegmentDepthLimit(1)): the count is that of the whole sync, not of a segment.
+func adChainAndEntriesSyncSegmented() *sched.Scenario {
+	return adChainAndEntriesSyncOf("N10-segmented-ad-chain-sync-and-entries-sync-of-one-publisher", dagsync.SegmentDepthLimit(1))
+}
+
+func adChainAndEntriesSyncOf(name string, so ...dagsync.Option) *sched.Scenario {
 	return &sched.Scenario{Name: name,
 		Setup: func(e *sched.Exec) ([]sched.Thread, func()) {
-			w := schedfx.New(e, schedfx.Options{Pubs: 1, ChainLen: 3})
+			w := schedfx.New(e, schedfx.Options{Pubs: 1, ChainLen: 3, SubOpts: so})
 			p, ch := w.Pubs[0], w.Chains[0]
 			ech := syncfx.BuildEntryChain(p.Src, 2, syncfx.DefaultProto, "pub0-entries")
 			p.Publisher.SetRoot(ch.Cids[2])
@@ -837,7 +846,7 @@ func longStall(t *testing.T, r *vp.Recorder, n int) {
 
 func TestCheck(t *testing.T) {
 	r := vp.New("C14", "model_checking",
-		"scenarios on the real subscriber built with the instrumentation overlay (gated in-memory publishers, chains of 3 signed ads): N1 two publishers synced by two threads with a reading and a never-reading listener; N2 two successive explicit syncs of one publisher while a listener registers and cancels at scheduler-chosen moments and a reader polls (checking the latest-synced value at the moment each event arrives); N3 an announce-triggered sync with a failing block request; N4 an explicit / an announce-triggered sync racing with Close while a listener registered beforehand reads only at the end; N5 explicit syncs of two publishers and a failing announce-triggered sync (three notifications in flight); N6 an announce-triggered and an explicit sync (own scoped hook) of one publisher overlapping, each notification's count compared with the hook calls of its own sync; N9 an ad-chain sync and an entries sync of one publisher by two threads (the notification's count is that of the ad-chain sync); N8 an explicit sync whose caller cancels its context from inside the block hook (at the newest / at the oldest block); N7 one thread registering a listener, syncing, registering a second one, syncing again (registration precedes the sync by program order). Outside the scheduler: one listener that never reads and one that does, 150 (thorough 600) sequential syncs, each of which must return and reach the reader, and the backlog must arrive complete and in order in the end. All interleavings at the scheduling points (locks, atomics, channel operations of OnSyncFinished / cancel / the distributor, selects, spawns, requests, hook calls, observations) up to the preemption bound. states = distinct decision states; transitions = scheduling steps; traces = executions of the real code.",
+		"scenarios on the real subscriber built with the instrumentation overlay (gated in-memory publishers, chains of 3 signed ads): N1 two publishers synced by two threads with a reading and a never-reading listener; N2 two successive explicit syncs of one publisher while a listener registers and cancels at scheduler-chosen moments and a reader polls (checking the latest-synced value at the moment each event arrives); N3 an announce-triggered sync with a failing block request; N4 an explicit / an announce-triggered sync racing with Close while a listener registered beforehand reads only at the end; N5 explicit syncs of two publishers and a failing announce-triggered sync (three notifications in flight); N6 an announce-triggered and an explicit sync (own scoped hook) of one publisher overlapping, each notification's count compared with the hook calls of its own sync; N9 an ad-chain sync and an entries sync of one publisher by two threads (the notification's count is that of the ad-chain sync); N10 the same on a subscriber that syncs in segments of one advertisement; N8 an explicit sync whose caller cancels its context from inside the block hook (at the newest / at the oldest block); N7 one thread registering a listener, syncing, registering a second one, syncing again (registration precedes the sync by program order). Outside the scheduler: one listener that never reads and one that does, 150 (thorough 600) sequential syncs, each of which must return and reach the reader, and the backlog must arrive complete and in order in the end. All interleavings at the scheduling points (locks, atomics, channel operations of OnSyncFinished / cancel / the distributor, selects, spawns, requests, hook calls, observations) up to the preemption bound. states = distinct decision states; transitions = scheduling steps; traces = executions of the real code.",
 		"cooperative scheduling at synchronization operations; every multi-case select is a priority select whose first-tried case is a scheduler decision (a non-default first case costs one unit of the bound, like a preemption); at most 3 listeners and 2 publishers",
 		"in N1 and N2 the chain blocks are already in the destination store (they are reported but not requested), so each sync makes only the head request",
 		"'registered before the sync finished' is judged by real-time order in the observation log: registration returned before the sync was invoked, cancel invoked after it returned",
@@ -851,7 +860,7 @@ func TestCheck(t *testing.T) {
 	if vp.Thorough() {
 		bound = 3
 	}
-	scs := []*sched.Scenario{registerThenSync(), callerCancelsFromHook(1), callerCancelsFromHook(2), adChainAndEntriesSync(), syncVsClose("explicit"), syncVsClose("announce"), overlappingSyncsOfOnePublisher(), threeInFlight(), twoPublishers(), registerDuringSyncs(), failingAnnounce()}
+	scs := []*sched.Scenario{registerThenSync(), callerCancelsFromHook(1), callerCancelsFromHook(2), adChainAndEntriesSync(), adChainAndEntriesSyncSegmented(), syncVsClose("explicit"), syncVsClose("announce"), overlappingSyncsOfOnePublisher(), threeInFlight(), twoPublishers(), registerDuringSyncs(), failingAnnounce()}
 	r.Bounds(map[string]any{"preemption_bound": bound, "scenarios": len(scs)})
 	budget := 0.0
 	if v := os.Getenv("VERIF_BUDGET_S"); v != "" {
